@@ -83,12 +83,12 @@ theorem ok_term : ∀ t : Fun.Term, OkCwc p t ∧ OkComp p t
     have hcomp : OkComp p (.var x ty chi) := by
       intro Γ τ cty st ht hb
       simp only [TypedM] at ht
-      obtain ⟨rfl, -⟩ := ht
+      obtain ⟨-, rfl, -⟩ := ht
       exact ⟨_, c_var x (some τ) chi cty st⟩
     refine ⟨okCwc_of_comp hcomp ?_, hcomp⟩
     intro Γ τ ht c st
     simp only [TypedM] at ht
-    obtain ⟨rfl, -⟩ := ht
+    obtain ⟨-, rfl, -⟩ := ht
     rfl
   | .lit n => ⟨fun _ _ _ _ _ _ => ⟨_, rfl⟩, fun _ _ _ _ _ _ => ⟨_, rfl⟩⟩
   | .op a o b => by
@@ -116,7 +116,7 @@ theorem ok_term : ∀ t : Fun.Term, OkCwc p t ∧ OkComp p t
     have hcwc : OkCwc p (.ifc srt a b t e an) := by
       intro Γ τ c st hty hb
       simp only [TypedM] at hty
-      obtain ⟨-, tya, tyb, tyt, tye⟩ := hty
+      obtain ⟨-, -, tya, tyb, tyt, tye⟩ := hty
       rw [cwc_ifc]
       have hfr := shareIf_fresh (isLeaf c) c st
       generalize (if isLeaf c then (c, st) else share c st) = r at hfr
@@ -138,7 +138,7 @@ theorem ok_term : ∀ t : Fun.Term, OkCwc p t ∧ OkComp p t
     have hcwc : OkCwc p (.ifz srt a t e an) := by
       intro Γ τ c st hty hb
       simp only [TypedM] at hty
-      obtain ⟨-, tya, tyt, tye⟩ := hty
+      obtain ⟨-, -, tya, tyt, tye⟩ := hty
       rw [cwc_ifz]
       have hfr := shareIf_fresh (isLeaf c) c st
       generalize (if isLeaf c then (c, st) else share c st) = r at hfr
@@ -157,7 +157,7 @@ theorem ok_term : ∀ t : Fun.Term, OkCwc p t ∧ OkComp p t
     have hcwc : OkCwc p (.print nl a n an) := by
       intro Γ τ c st hty hb
       simp only [TypedM] at hty
-      obtain ⟨-, tya, tyn⟩ := hty
+      obtain ⟨-, -, tya, tyn⟩ := hty
       rw [cwc_print]
       obtain ⟨⟨arg, st1⟩, hx⟩ := ha Γ .i64 .i64 st tya (hb.sub (by bsub))
       obtain ⟨⟨next, st2⟩, hy⟩ := hn Γ τ c st1 tyn ((hb.sub (by bsub)).mono (compile_fresh hx))
@@ -171,7 +171,7 @@ theorem ok_term : ∀ t : Fun.Term, OkCwc p t ∧ OkComp p t
     have hcwc : OkCwc p (.letIn x σ bound body an) := by
       intro Γ τ c st hty hb
       simp only [TypedM] at hty
-      obtain ⟨han, tyb, tyi⟩ := hty
+      obtain ⟨-, han, tyb, tyi⟩ := hty
       rw [cwc_letIn]
       refine okGuarded (L := binderNames (.letIn x σ bound body an)) han
         (by intro y hy; simp only [List.mem_singleton] at hy; simp [binderNames, hy]) ?_ c st hb
@@ -191,7 +191,7 @@ theorem ok_term : ∀ t : Fun.Term, OkCwc p t ∧ OkComp p t
     have hcwc : OkCwc p (.call f args an) := by
       intro Γ τ c st hty hb
       simp only [TypedM] at hty
-      obtain ⟨rfl, d, hd, rfl, rfl, targs⟩ := hty
+      obtain ⟨-, rfl, d, hd, rfl, rfl, targs⟩ := hty
       rw [cwc_call]
       obtain ⟨⟨args', st1⟩, hx⟩ := hs Γ d.ctx st targs (hb.sub (by bsub))
       simp only [hx]
@@ -202,7 +202,7 @@ theorem ok_term : ∀ t : Fun.Term, OkCwc p t ∧ OkComp p t
     have hcomp : OkComp p (.ctor k args an) := by
       intro Γ τ cty st hty hb
       simp only [TypedM] at hty
-      obtain ⟨rfl, d, cc, hd, hcc, targs⟩ := hty
+      obtain ⟨-, rfl, d, cc, hd, hcc, targs⟩ := hty
       rw [c_ctor]
       obtain ⟨⟨args', st1⟩, hx⟩ := hs Γ cc.args st targs (hb.sub (by bsub))
       simp only [hx]
@@ -210,7 +210,7 @@ theorem ok_term : ∀ t : Fun.Term, OkCwc p t ∧ OkComp p t
     refine ⟨okCwc_of_comp hcomp ?_, hcomp⟩
     intro Γ τ ht c st
     simp only [TypedM] at ht
-    obtain ⟨rfl, -⟩ := ht
+    obtain ⟨-, rfl, -⟩ := ht
     exact cwc_ctor k args (some τ) c st
   | .dtor scrut k ta args an => by
     have hs := ok_subst args
@@ -218,7 +218,7 @@ theorem ok_term : ∀ t : Fun.Term, OkCwc p t ∧ OkComp p t
     have hcwc : OkCwc p (.dtor scrut k ta args an) := by
       intro Γ τ c st hty hb
       simp only [TypedM] at hty
-      obtain ⟨-, σ, d, sg, tys, hd, hsg, rfl, targs⟩ := hty
+      obtain ⟨-, -, σ, d, sg, tys, hd, hsg, rfl, targs⟩ := hty
       rw [cwc_dtor]
       obtain ⟨⟨args', st1⟩, hx⟩ := hs Γ sg.args st targs (hb.sub (by bsub))
       simp only [hx, getType_of_typed p scrut Γ σ tys]
@@ -230,7 +230,7 @@ theorem ok_term : ∀ t : Fun.Term, OkCwc p t ∧ OkComp p t
     have hcwc : OkCwc p (.case scrut ta cs an) := by
       intro Γ τ c st hty hb
       simp only [TypedM] at hty
-      obtain ⟨han, σ, d, tys, hd, tcs, hcov⟩ := hty
+      obtain ⟨-, han, σ, d, tys, hd, tcs, hcov⟩ := hty
       rw [cwc_case]
       refine okGuarded (L := binderNames (.case scrut ta cs an)) han
         (by intro y hy; simp [binderNames, clausesNames_sub cs y hy]) ?_ c st hb
@@ -249,7 +249,7 @@ theorem ok_term : ∀ t : Fun.Term, OkCwc p t ∧ OkComp p t
     have hcomp : OkComp p (.new cs an) := by
       intro Γ τ cty st hty hb
       simp only [TypedM] at hty
-      obtain ⟨rfl, d, hd, tcs, hcov⟩ := hty
+      obtain ⟨-, rfl, d, hd, tcs, hcov⟩ := hty
       rw [c_new]
       obtain ⟨⟨cs', st1⟩, hx⟩ := hs Γ d.dtors st tcs (hb.sub (by bsub))
       simp only [hx]
@@ -257,14 +257,14 @@ theorem ok_term : ∀ t : Fun.Term, OkCwc p t ∧ OkComp p t
     refine ⟨okCwc_of_comp hcomp ?_, hcomp⟩
     intro Γ τ ht c st
     simp only [TypedM] at ht
-    obtain ⟨rfl, -⟩ := ht
+    obtain ⟨-, rfl, -⟩ := ht
     exact cwc_new cs (some τ) c st
   | .goto a t an => by
     have ht' := (ok_term t).1
     have hcwc : OkCwc p (.goto a t an) := by
       intro Γ τ c st hty hb
       simp only [TypedM] at hty
-      obtain ⟨-, b, hl, hchi, tyt⟩ := hty
+      obtain ⟨-, -, b, hl, hchi, tyt⟩ := hty
       rw [cwc_goto]
       simp only [getType_of_typed p t Γ b.ty tyt]
       exact ht' Γ b.ty _ st tyt (hb.sub (by bsub))
@@ -274,7 +274,7 @@ theorem ok_term : ∀ t : Fun.Term, OkCwc p t ∧ OkComp p t
     have hcomp : OkComp p (.label a t an) := by
       intro Γ τ cty st hty hb
       simp only [TypedM] at hty
-      obtain ⟨rfl, tyt⟩ := hty
+      obtain ⟨-, rfl, tyt⟩ := hty
       rw [c_label]
       simp only
       obtain ⟨⟨s, st1⟩, hx⟩ := ht' _ τ (.var .cns ⟨a, 0⟩ (compileTy τ)) st tyt (hb.sub (by bsub))
@@ -283,14 +283,14 @@ theorem ok_term : ∀ t : Fun.Term, OkCwc p t ∧ OkComp p t
     refine ⟨okCwc_of_comp hcomp ?_, hcomp⟩
     intro Γ τ ht c st
     simp only [TypedM] at ht
-    obtain ⟨rfl, -⟩ := ht
+    obtain ⟨-, rfl, -⟩ := ht
     exact cwc_label a t (some τ) c st
   | .exit arg an => by
     have ha := (ok_term arg).2
     have hcwc : OkCwc p (.exit arg an) := by
       intro Γ τ c st hty hb
       simp only [TypedM] at hty
-      obtain ⟨rfl, tya⟩ := hty
+      obtain ⟨-, rfl, tya⟩ := hty
       rw [cwc_exit]
       obtain ⟨⟨a, st1⟩, hx⟩ := ha Γ .i64 .i64 st tya (hb.sub (by bsub))
       simp only [hx]
